@@ -14,12 +14,18 @@ with its nested `_stream_files`, are run on generated
     last blocks beyond every constant; multi-MiB streams on the natively rebuilt chunker (direct oracle only: split
     independence, shared suffix, local edit, and the same edit through two real snapshots of a large file); constants below
     4096 also through the Lean tie,
+  * LOW-ENTROPY CONTENT (`harness/impl/c11_lowent.py`): streams with a run of identical data (one byte / a repeated unit whose
+    length divides the forced chunk length) of every length class around one scan window, max+min and 2·max, followed by
+    ordinary data; keys: the adapter's default and random ones; small parameters (Lean tie), medium ones and the adapter's
+    defaults (natively) — each stream re-chunked from its own boundaries and used as a shared suffix that starts inside the run,
 and compared with the compiled Lean model (`chunk.sync`, `chunk.all`, `chunk.pad_stream`) after mapping both to the
 observable the theorems speak about (chunk lengths, first common boundary as an offset of the shared suffix, the chunk
 lists after it, the greedy chunking of the rest, file start offsets).
 
 Direct oracle = C11's own statement on the implementation's output:
   universal   suffix:  from the first boundary two streams have in common all chunks are identical up to the tail zone
+              restart: re-chunking a stream from any of its own boundaries reproduces the chunks after it up to the tail zone
+                       (the cuts after a boundary are a function of the content after it, not of the chunks before it)
               prefix:  all chunks that start >= ceil4(max) before an edit are identical
               align :  boundaries outside the tail zone are multiples of the alignment; files start at multiples of it
   statistical (high-entropy data, min <= max/16 only; labelled as such):
@@ -38,12 +44,19 @@ from pathlib import Path
 
 from ..common import REPO, WORK, Driver, digest, rng_for, use_rebuilt_chunker
 from ..impl import c11_blocks as BL
+from ..impl import c11_lowent as LE
 
 # D = D_FACTOR · max.  Measured on the rebuilt chunker (2·10^5 random pairs, (min,max) in {(2,32),(4,64),(16,256)}): the first common
 # boundary outside the tail zone lies beyond k·max after the shared data begins with frequency ≈ 4e-2, 4e-4, 1e-5 for k = 1, 2, 3
 # (ratio ≤ 1/25 per step, largest observed 3.4·max).  Extrapolating with the conservative ratio 1/20: 20^-16 ≈ 1.5e-21 < 1e-15.
 D_FACTOR = 16
 KEY_DATA_FACTOR = 64
+RESTART_SIG = 'c11:cuts-after-boundary-depend-on-history'
+DEFAULT_KEY = b'\xff' * 16     # what the adapter uses for params=None / b'' (the model takes the key as a parameter)
+
+
+def model_key_hex(key):
+    return (key or DEFAULT_KEY).hex()
 
 
 def ceil4(n):
@@ -320,8 +333,14 @@ def oracle_tables(case, ta, tb, nA, nB, align):
     zb = [(s, l) for s, l in rb if s >= o and s + 2 * mx <= nx]
     if za != zb:
         k = next((i for i, (x, y) in enumerate(zip(za, zb)) if x != y), min(len(za), len(zb)))
-        bad.append(('c11:suffix-desync', f'both streams have a boundary at offset {o} of the shared suffix, but chunk #{k} after it differs: '
-                    f'{za[k] if k < len(za) else None} vs {zb[k] if k < len(zb) else None} (offset, length) — outside the tail zone'))
+        if str(case.get('cls', '')).startswith('lowent-restart') and pb == 0 and o == 0:
+            # the second stream IS the first one from its own boundary pa on (C11.rechunk_from_boundary)
+            bad.append((RESTART_SIG, f'{pa} is a boundary of the chunking of the stream; re-chunking the stream from there gives chunk #{k} after it '
+                        f'(offset, length) = {zb[k] if k < len(zb) else None} instead of {za[k] if k < len(za) else None} — outside the tail zone: '
+                        'the cuts after a boundary depend on the chunks before it'))
+        else:
+            bad.append(('c11:suffix-desync', f'both streams have a boundary at offset {o} of the shared suffix, but chunk #{k} after it differs: '
+                        f'{za[k] if k < len(za) else None} vs {zb[k] if k < len(zb) else None} (offset, length) — outside the tail zone'))
     # --- prefix: chunks that start >= ceil4(max) before the edit are identical (outside both tail zones)
     if u:
         lim = min(nA, nB)
@@ -408,7 +427,7 @@ def check_cases(cases, drv, res, align):
     model = None
     if drv is not None:
         # one request at a time: replies are large (several chunk-length lists), pipelining could fill both pipes
-        model = [drv.ask({'op': 'chunk.sync', 'min': c['min'], 'max': c['max'], 'key': c['key'].hex(),
+        model = [drv.ask({'op': 'chunk.sync', 'min': c['min'], 'max': c['max'], 'key': model_key_hex(c['key']),
                           'a': [p.hex() for p in c['a']], 'b': [p.hex() for p in c['b']], 'pa': c['pa'], 'pb': c['pb']}) for c in cases]
     for i, (c, im) in enumerate(zip(cases, impl)):
         if isinstance(im, Exception):
@@ -1132,9 +1151,244 @@ def plan_block_jobs(seed, tier, consts):
                   'budget_bytes_per_stream': budget}
 
 
+# ------------------------------------------------------------------------------------------------ low-entropy content
+LOWENT_PLAN = {   # tier -> [(scale, jobs, streams per job)]
+    'quick': [('small', 6, 30), ('medium', 2, 15), ('adapter-defaults', 3, 3)],
+    'thorough': [('small', 16, 150), ('medium', 4, 40), ('adapter-defaults', 6, 6)],
+}
+
+
+def adapter_defaults():
+    from replicat.utils import adapters
+    return adapters.gclmulchunker.MIN_LENGTH, adapters.gclmulchunker.MAX_LENGTH
+
+
+def restart_compare(ta, n, i, b, lens2, K, mx):
+    """chunks of a stream of n bytes ((offset, length) table ta, chunk #i starts at its boundary b) vs the chunks of the re-chunked
+    window S[b : b+K] (lengths lens2): both restricted to what C11.rechunk_window_from_boundary claims (the chunk starts at least
+    2·max before the end of the window and of the stream).  Returns (None | (k, original, re-chunked), chunks compared)."""
+    za = []
+    for s_, l in ta[i:]:
+        if s_ + 2 * mx > n or s_ - b + 2 * mx > K:
+            break
+        za.append((s_ - b, l))
+    zb, off = [], 0
+    for l in lens2:
+        if off + 2 * mx > K or b + off + 2 * mx > n:
+            break
+        zb.append((off, l))
+        off += l
+    if za == zb:
+        return None, len(za)
+    k = next((j for j, (x, y) in enumerate(zip(za, zb)) if x != y), min(len(za), len(zb)))
+    return (k, za[k] if k < len(za) else None, zb[k] if k < len(zb) else None), len(za)
+
+
+def lowent_restart(c, S, lens, b, K, blocks2):
+    """re-chunk the window S[b : b+K] with the real adapter; -> (finding | None, compared, lens2)"""
+    mx = c['max']
+    T = S[b:b + K]
+    lens2, ok2 = impl_cuts(c['min'], mx, bytes.fromhex(c['key']), blocks2 or [[len(T), 1]], T)
+    if not ok2:
+        return ('c11:not-lossless', 'the chunks of the re-chunked window do not concatenate to it (C10)'), 0, lens2
+    ta = table_of_lens(lens)
+    i = next((j for j, (s_, _) in enumerate(ta) if s_ == b), None)
+    if i is None:
+        return None, 0, lens2
+    diff, ncmp = restart_compare(ta, len(S), i, b, lens2, len(T), mx)
+    if diff is None:
+        return None, ncmp, lens2
+    k, x, y = diff
+    where = LE.tag_boundary(b, c.get('runs', []), mx, len(S))
+    run = next((r_ for r_ in c.get('runs', []) if r_[0] <= b < r_[1]), None)
+    what = (f'stream of {len(S)} bytes = {LE.describe(c["parts"])}; (min,max)=({c["min"]},{mx}), key={c["key"] or "adapter default (params=None)"}: '
+            f'{b} is a boundary of its chunking' + (f' ({run[1] - b} bytes before the end of the run of identical data)' if run else f' ({where})') +
+            f'; re-chunking the stream from there (window of {len(T)} bytes) gives chunk #{k} after it (offset, length) = {y} instead of {x}, '
+            f'{len(S) - b - (x or y)[0]} bytes before the end (tail zone = last {2 * mx}): the cuts after a boundary depend on the chunks before it')
+    return (RESTART_SIG, what), ncmp, lens2
+
+
+def lowent_pair_native(c, S, lens, align):
+    """P1 + X vs P2 + X with X = S[p:] (X starts inside a run), on recipes; -> [(sig, what)], observation"""
+    mn, mx, p = c['min'], c['max'], c['p']
+    P2 = LE.build(c['p2_parts'])
+    B = P2 + S[p:]
+    lens_b, okb = impl_cuts(mn, mx, bytes.fromhex(c['key']), c.get('b_blocks') or [[len(B), 1]], B)
+    if not okb:
+        return [('c11:not-lossless', 'the chunks do not concatenate to the stream (C10), C11 cannot be evaluated')], {}
+    case = {'kind': 'lowent', 'cls': c['cls'], 'min': mn, 'max': mx, 'pa': p, 'pb': len(P2), 'u': 0, 'statistical': False}
+    bad = oracle_tables(case, table_of_lens(lens), table_of_lens(lens_b), len(S), len(B), align)
+    o = first_common(bounds(lens), p, bounds(lens_b), len(P2))
+    bad = [(sig, f'stream A = {LE.describe(c["parts"])}, stream B = {LE.describe(c["p2_parts"]) or "nothing"} + A[{p}:] (the shared suffix starts '
+            f'inside the run of identical data), (min,max)=({mn},{mx}), key={c["key"] or "adapter default (params=None)"}: ' + what) for sig, what in bad]
+    return bad, {'first_common_boundary': o, 'chunks': [len(lens), len(lens_b)],
+                 'chunks_after_it_outside_tail': 0 if o is None else sum(1 for s_, _ in table_of_lens(lens) if s_ >= p + o and s_ + 2 * mx <= len(S))}
+
+
+def lowent_recipe(c):
+    d = dict(c)
+    d['how_to_rebuild'] = ('stream S = concatenation of parts [style, x, length] (harness/impl/c11_lowent.py::make_part: fill = byte x repeated, unit = hex unit '
+                           'repeated, random = random.Random(x).randbytes(length)); handed to gclmulchunker(min_length=min, max_length=max)(blocks, params=key or None) '
+                           'in blocks of the run-length encoded lengths; restart: S[b : b+K] is chunked again; pair: build(p2_parts) + S[p:] is chunked')
+    return d
+
+
+def lowent_small_case(c, S, pieces, cls, pa, b_pieces, pb):
+    return {'kind': 'lowent', 'cls': cls, 'style': 'lowent:' + c['fill'], 'statistical': False, 'min': c['min'], 'max': c['max'],
+            'key': bytes.fromhex(c['key']), 'a': pieces, 'b': b_pieces, 'pa': pa, 'pb': pb, 'u': 0}
+
+
+def lowent_job(args):
+    """one pool job: streams with runs of identical data (harness/impl/c11_lowent.py) — re-chunked from their own boundaries, and as
+    shared suffixes that start inside a run; small parameters also through the Lean tie"""
+    seed, tier, jid, scale, first, count = args
+    use_rebuilt_chunker()
+    r = rng_for(seed, 'C11-lowent', tier, jid)
+    res = Res()
+    drv = None
+    try:
+        align = impl_alignment()
+        thorough = tier != 'quick'
+        dmn, dmx = adapter_defaults()
+        if scale == 'small':
+            try:
+                drv = Driver()
+            except Exception:  # noqa: BLE001
+                drv = None
+        combos = len(LE.RUN_CLASSES) * len(LE.FILL_CLASSES)
+        tie_cases = []
+        for gi in range(first, first + count):
+            idx = (seed * 13 + gi * 7) % combos
+            run_cls, fill_cls = LE.RUN_CLASSES[idx % len(LE.RUN_CLASSES)], LE.FILL_CLASSES[idx // len(LE.RUN_CLASSES)]
+            if scale == 'small':
+                mn, mx = r.choice(LE.SMALL_PARAMS) if r.random() < 0.8 else gen_params(r, False)
+            elif scale == 'medium':
+                mn, mx = r.choice(LE.MEDIUM_PARAMS)
+            else:
+                mn, mx = dmn, dmx
+            forced = LE.ceil_to(mn, align)
+            key = b'' if gi % 3 == 0 else gen_key(r)
+            layout = None if scale != 'adapter-defaults' else r.choice(['run+data', 'run+data', 'data+run+data'])
+            st = LE.gen_stream(r, mn, mx, align, run_cls, fill_cls, layout)
+            S = LE.build(st['parts'])
+            n = len(S)
+            if scale == 'small':
+                pieces = segment(r, S)
+                blocks = BL.rle([len(x) for x in pieces])
+                seg = 'one-block' if len(pieces) == 1 else 'random-blocks'
+            else:
+                seg = r.choice(['one-block', 'one-block', 'scan-window-blocks', 'natural'])
+                blocks = [[n, 1]] if seg == 'one-block' else BL.fill(n, LE.ceil_to(mx, align)) if seg == 'scan-window-blocks' else \
+                    BL.fill(n, 1 << 20 if mx > (1 << 20) else max(1, mx // 3))
+            c = {'kind': 'lowent', 'family': 'restart', 'scale': scale, 'min': mn, 'max': mx, 'key': key.hex(), 'parts': st['parts'], 'runs': st['runs'],
+                 'layout': st['layout'], 'fill': fill_cls, 'run_length_class': run_cls, 'blocks': blocks, 'seg': seg}
+            try:
+                lens, ok = impl_cuts(mn, mx, key, blocks, S)
+            except Exception as e:  # noqa: BLE001
+                res.cases.append(({k: c[k] for k in ('kind', 'family', 'scale', 'min', 'max', 'fill', 'run_length_class', 'layout')}, False))
+                res.disagreements.append({'what': 'implementation raised on a generated low-entropy stream', 'replay': {'kind': 'lowent', 'case': lowent_recipe(c), 'error': repr(e)}})
+                continue
+            res.count('kind:lowent:restart')
+            res.count('lowent:params:' + ('small(+lean-tie)' if scale == 'small' else 'medium(native)' if scale == 'medium' else f'adapter-defaults({mn},{mx})(native)'))
+            res.count('lowent:fill:' + fill_cls)
+            res.count('lowent:run-length:' + run_cls)
+            res.count('lowent:layout:' + st['layout'])
+            res.count('lowent:run-residue:' + st['residue'])
+            res.count('lowent:key:' + ('adapter-default(params=None)' if not key else 'random'))
+            res.count('lowent:blocks:' + seg)
+            res.count('lowent:fill×key:' + fill_cls + '×' + ('default' if not key else 'random'))
+            if not ok:
+                res.violations.append({'sig': 'c11:not-lossless', 'what': 'the chunks do not concatenate to the stream (C10), C11 cannot be evaluated',
+                                       'replay': {'kind': 'lowent', 'case': lowent_recipe(c)}})
+                continue
+            bs = bounds(lens)
+            ta = table_of_lens(lens)
+            # --- how the chunking leaves the run: is this a stream on which "same data, same cut" is wrong?
+            for start, end, _, _ in st['runs']:
+                inside = [(s_, l) for s_, l in ta if start <= s_ < end and end - s_ < mx and s_ + 2 * mx <= n]
+                if any(s_ + l > end or l != forced for s_, l in inside):
+                    res.count('lowent:run-left-by-a-cut-in-the-following-data(not the forced length)')
+                elif inside:
+                    res.count('lowent:run-left-by-forced-cuts-only')
+            # --- restart: re-chunk from the stream's own boundaries
+            limit = None if scale == 'small' or (thorough and scale == 'medium') else 40 if scale == 'medium' else (24 if thorough else 9)
+            picked = LE.pick_boundaries(r, bs, st['runs'], mx, forced, n, limit)
+            kfac = r.choice([3, 4, 4, 6]) if scale != 'adapter-defaults' else 3
+            found, compared, sens = [], 0, 0
+            for b, tag in picked:
+                K = min(n - b, kfac * mx + r.randint(0, 7))
+                blocks2 = None if r.random() < 0.7 else BL.fill(K, max(1, mx - r.randint(0, 3)))
+                bad, ncmp, lens2 = lowent_restart(c, S, lens, b, K, blocks2)
+                compared += ncmp
+                res.extra_evals += 1
+                res.count('lowent:restart-boundary:' + tag)
+                sens += tag == 'in-run:window-reaches-following-data' and ncmp > 0
+                if bad is not None:
+                    found.append((b, K, blocks2, bad, lens2))
+            for b, K, blocks2, (sig, what), lens2 in found[:2]:
+                res.violations.append({'sig': sig, 'what': what, 'replay': {'kind': 'lowent', 'case': lowent_recipe(dict(c, b=b, K=K, blocks2=blocks2)),
+                                                                            'observed': {'chunks_of_the_stream': lens[:60], 'chunks_of_the_window': lens2[:30]}}})
+            small_d = {k: c[k] for k in ('kind', 'family', 'scale', 'min', 'max', 'key', 'fill', 'run_length_class', 'layout', 'seg')}
+            small_d.update(length=n, runs=[[a, e] for a, e, _, _ in st['runs']], chunks=len(lens), boundaries_rechunked=len(picked),
+                           of_them_inside_a_run_with_the_window_reaching_the_following_data=sens, chunks_compared=compared,
+                           recipe_digest=digest([st['parts'], blocks]))
+            res.cases.append((small_d, sens > 0 and compared >= 3))
+            # --- pair: the shared suffix starts inside a run
+            pairs = LE.gen_pairs(r, st, mn, mx, align, 2 if scale != 'adapter-defaults' else 1)
+            for p, rem_cls, p2_cls, p2_parts in pairs:
+                cls = f'lowent-pair/{p2_cls}'
+                res.count('lowent:pair:run-left-after-the-shared-start:' + rem_cls)
+                if scale == 'small':
+                    P2 = LE.build(p2_parts)
+                    tie_cases.append(lowent_small_case(c, S, pieces, cls, p, segment(r, P2 + S[p:]), len(P2)))
+                    continue
+                pc = dict(c, family='pair', cls=cls, p=p, p2_parts=p2_parts, b_blocks=None)
+                bad, obs = lowent_pair_native(pc, S, lens, align)
+                res.count('kind:lowent:pair(native)')
+                res.count('class:' + cls)
+                d = {k: pc[k] for k in ('kind', 'family', 'scale', 'cls', 'min', 'max', 'key', 'fill', 'run_length_class', 'layout', 'p')}
+                d.update(obs, length=n, recipe_digest=digest([st['parts'], p, p2_parts]))
+                res.cases.append((d, obs.get('chunks_after_it_outside_tail', 0) >= 3))
+                for sig, what in bad:
+                    res.violations.append({'sig': sig, 'what': what, 'replay': {'kind': 'lowent', 'case': lowent_recipe(pc), 'observed': obs}})
+            if scale == 'small':
+                # Lean tie: the model's adapter loop on exactly these blocks, and the restart at the most sensitive boundaries as a
+                # pair (S, S[b:]) through `chunk.sync` (suffix_sync instance: both continue with greedy(S.drop b))
+                if drv is not None:
+                    m = drv.ask({'op': 'chunk.all', 'min': mn, 'max': mx, 'key': model_key_hex(key), 'pieces': [x.hex() for x in pieces]})
+                    if m.get('chunks') != lens:
+                        res.disagreements.append({'what': 'chunk lengths of a low-entropy stream differ between model and implementation',
+                                                  'replay': {'kind': 'lowent', 'case': lowent_recipe(c), 'model': m, 'impl': lens}})
+                    else:
+                        res.validated += 1
+                        res.count('lowent:lean-tie')
+                sensitive = [b for b, tag in picked if tag == 'in-run:window-reaches-following-data']
+                chosen = sensitive[-1:] + ([r.choice(sensitive)] if len(sensitive) > 1 else []) + [b for b, _, _, _, _ in found[:1]]
+                for b in sorted(set(chosen)):
+                    tie_cases.append(lowent_small_case(c, S, pieces, 'lowent-restart/' + LE.tag_boundary(b, st['runs'], mx, n), b, [S[b:]], 0))
+        for i in range(0, len(tie_cases), 100):
+            check_cases(tie_cases[i:i + 100], drv, res, align)
+    finally:
+        if drv is not None:
+            res.counts['__driver_requests'] = drv.count
+            drv.close()
+    return res.__dict__
+
+
+def plan_lowent_jobs(seed, tier):
+    jobs, first = [], 0
+    for scale, n_jobs, per in LOWENT_PLAN['quick' if tier == 'quick' else 'thorough']:
+        for _ in range(n_jobs):
+            jobs.append(('lowent', seed, tier, len(jobs), scale, first, per))
+            first += per
+    return jobs
+
+
 def pool_job(args):
     if args[0] == 'blocks':
         return block_job(args[1:])
+    if args[0] == 'lowent':
+        return lowent_job(args[1:])
     return batch(args)
 
 
@@ -1157,7 +1411,14 @@ def run(out, drv, info):
                 'up to the tier\'s budget per stream: all) streams of m·c + (28..36)·max bytes (m ≤ 3) handed over as one block, and with blocks of '
                 'c-δ / c / c+δ / c+(3..8)·max / 2c / (3..5)·c as last / first / middle / every / last two blocks, each compared with the same stream in '
                 'blocks below c (split independence), as pairs with shifted shared data and as local edits (early / just before c / after c), '
-                'and as two real snapshots of a directory whose large file (just above c) got an aligned local edit.')
+                'and as two real snapshots of a directory whose large file (just above c) got an aligned local edit. '
+                '+ LOW-ENTROPY CONTENT (harness/impl/c11_lowent.py): streams with a RUN of identical data — one byte (0x00, 0xFF, others) or a repeated unit whose '
+                'length divides the forced chunk length (control: does not divide) — of a length just below / at / just above one scan window, max+min, 2·max, and '
+                'several max, FOLLOWED by ordinary data (layouts: run first, after data, two runs, to the end, short rest), keys: adapter default and random, '
+                'parameters: small (with the Lean tie), medium, and the adapter\'s defaults on the natively rebuilt chunker. Each stream is re-chunked from its own '
+                'boundaries (small: all; otherwise those inside the run near its end first) — the chunks after a boundary must not depend on what came before it — '
+                'and used as a shared suffix that starts inside the run. Every (run length × fill) class is visited in rotation; sensitive = a boundary inside the '
+                'run from which the scan window reaches the following data.')
     out.assumptions = ['the keyed CLMUL hash is an arbitrary function in every theorem; its executable model is validated here against the rebuilt C++',
                        f'STATISTICAL (not proved): hash values of distinct windows behave like independent uniform draws; resync bound D = {D_FACTOR}·max chosen '
                        'from a measured geometric tail (≈ 4e-2, 4e-4, 1e-5 beyond 1, 2, 3·max; conservative ratio 1/20 per max ⇒ < 1e-15 per case); '
@@ -1177,9 +1438,14 @@ def run(out, drv, info):
     for v in plan_info['above_budget_not_exercised']:
         out.count(f'blocks:const={v}:above-this-tier\'s-budget(NOT exercised)')
     ctx = multiprocessing.get_context('fork')
+    ljobs = plan_lowent_jobs(out.seed, out.tier)
+    # the jobs at the adapter's default parameters are the longest of them: first
+    ljobs.sort(key=lambda a: {'adapter-defaults': 0, 'medium': 1, 'small': 2}[a[4]])
+    out.extra['low_entropy'] = {'jobs': len(ljobs), 'streams': sum(a[6] for a in ljobs), 'run_length_classes': LE.RUN_CLASSES, 'fill_classes': LE.FILL_CLASSES,
+                                'adapter_defaults': list(adapter_defaults())}
     with ctx.Pool(min(ncpu, workers + (4 if quick else 0))) as pool:
         t_pool = time.time()
-        results = pool.map(pool_job, bjobs + jobs, chunksize=1)
+        results = pool.map(pool_job, bjobs + ljobs + jobs, chunksize=1)
         out.extra['phase_s'] = {'pool(batches + block jobs)': round(time.time() - t_pool, 1)}
     dists = []
     dreq = 0
@@ -1202,6 +1468,8 @@ def run(out, drv, info):
     def simplicity(v):
         c = v['replay'].get('case', v['replay']) if v['replay'].get('kind', '').startswith('blocks') else None
         if c is None:
+            if v['replay'].get('kind') == 'lowent':      # recipes: the shortest stream first (small parameters before the adapter's defaults)
+                return (0, 1, LE.total(v['replay']['case'].get('parts', [])))
             return (0, 0, 0)
         return (1, 0 if c.get('const') in (thr or []) else 1, sum(n for _, n, _ in c.get('a_parts', [])))
     for v in sorted(viol, key=simplicity):
@@ -1262,6 +1530,21 @@ def replay(path, drv):
         bad, obs, la, lb = eval_block_case(c, impl_alignment(), {}, {})
         print('blocks A', BL.block_summary(c['a_blocks']), 'blocks B', BL.block_summary(c['b_blocks']),
               '\nlens A', la[:20], '…', '\nlens B', lb[:20], '…', '\nobserved', obs, '\noracle:', bad)
+        return 1 if bad else 0
+    if kind == 'lowent':
+        c = rp['case']
+        S = LE.build(c['parts'])
+        lens, ok = impl_cuts(c['min'], c['max'], bytes.fromhex(c['key']), c['blocks'], S)
+        print('stream:', LE.describe(c['parts']), '\nchunks', lens[:60], '…' if len(lens) > 60 else '', 'loss-free' if ok else 'NOT LOSS-FREE')
+        if c.get('family') == 'pair':
+            bad, obs = lowent_pair_native(c, S, lens, impl_alignment())
+            print('observed', obs, '\noracle:', bad)
+        elif 'b' in c:
+            one, ncmp, lens2 = lowent_restart(c, S, lens, c['b'], c['K'], c.get('blocks2'))
+            bad = [one] if one else []
+            print(f're-chunked from boundary {c["b"]} (window {c["K"]}):', lens2[:30], f'\n{ncmp} chunks compared', '\noracle:', bad)
+        else:
+            bad = [] if ok else [('c11:not-lossless', '')]
         return 1 if bad else 0
     if kind == 'blocks-snapshot':
         scratch = WORK / str(os.getpid()) / 'c11b'
